@@ -7,7 +7,7 @@ Values:  Rat(n, d)  real number n/d, n and d z3 Real terms or Fractions (d != 0 
 The same executor runs concretely when all inputs are Fractions (used to validate it against the native build).
 sqrt(x) -> fresh y with y >= 0 and y*y == x; sin/cos -> a pair of fresh reals per distinct argument with s^2+c^2 == 1;
 further trig facts are added by the obligations as listed axioms.  Nothing here models rounding, NaN or overflow."""
-import re, struct, time, math
+import os, sys, re, struct, time, math
 from fractions import Fraction
 import z3
 from .ll2c import (parse_module, P, IntTy, FloatTy, PtrTy, ArrTy, StructTy, NamedTy, VoidTy, FnTy, Unsupported,
@@ -117,13 +117,14 @@ class Sym:
 
     def feasible(s, st, c):
         if isinstance(c, bool): return c
+        if not getattr(s, 'prune', True): return True   # no pruning: every syntactic path is followed; an infeasible one only yields a vacuous query
         s.queries += 1
         # cheap attempt first: without the single-variable range bounds (fewer polynomials for nlsat); unsat is sound
         nb = [x for x in st.pc if not s._isbound(x)]
         if len(nb) < len(st.pc):
-            r, _ = check_sat(nb + list(s.axioms) + [c], max(300, s.timeout // 3))
+            r, _ = _check_sat_inproc(nb + list(s.axioms) + [c], max(300, s.timeout // 3))   # in-process: thousands of small branch queries (a fork each costs more than they do)
             if r == z3.unsat: return False
-        r, _ = check_sat(list(st.pc) + list(s.axioms) + [c], s.timeout)
+        r, _ = _check_sat_inproc(list(st.pc) + list(s.axioms) + [c], s.timeout)
         return r != z3.unsat
 
     def _isbound(s, x):
@@ -418,6 +419,7 @@ class Sym:
             ct = p.type(); c = s.val(p, ct, st); p.expect(','); ty = p.type(); a = s.val(p, ty, st); p.expect(','); p.type(); b = s.val(p, ty, st)
             if isinstance(c, int): env[ins.res] = a if c else b
             elif isinstance(a, Rat) and isinstance(b, Rat):
+                if a.conc() and b.conc(): return s.fork(st, c, ins.res, a, b, idx)      # two FP constants: one path each
                 if isconst(a.d) and isconst(b.d) and a.d == b.d: env[ins.res] = Rat(z3.If(c, a.n, b.n), a.d)
                 else: env[ins.res] = Rat(z3.If(c, a.n * b.d, b.n * a.d), a.d * b.d)
             elif isinstance(a, (int, Ptr, tuple)) or isinstance(b, (int, Ptr, tuple)):
@@ -585,8 +587,13 @@ class Sym:
             if x.conc():
                 q = x.frac()
                 if q < 0: return []
-                rt = Fraction(math.isqrt(q.numerator * q.denominator), q.denominator) if math.isqrt(q.numerator * q.denominator) ** 2 == q.numerator * q.denominator else Fraction(math.sqrt(float(q)))
-                setr(Rat(rt)); return None
+                exact = math.isqrt(q.numerator * q.denominator) ** 2 == q.numerator * q.denominator
+                if exact or getattr(s, 'approx_sqrt', False):
+                    rt = Fraction(math.isqrt(q.numerator * q.denominator), q.denominator) if exact else Fraction(math.sqrt(float(q)))
+                    setr(Rat(rt)); return None
+                # irrational root of a concrete value in a symbolic run: exact, as an algebraic witness
+                y = s.newreal('sqrt'); st.pc += [y > 0, y * y * q.denominator == q.numerator]; st.wit.append((x, y))
+                setr(Rat(y)); return None
             y = s.newreal('sqrt')
             nn = (x.n * x.d >= 0)
             if not s.feasible(st, nn): return []
@@ -629,7 +636,7 @@ class Sym:
 
 
 # ---------------------------------------------------------------------------------------------------
-def check_sat(cons, timeout_ms):
+def _check_sat_inproc(cons, timeout_ms):
     """portfolio: z3's SMT core with nonlinear arithmetic lemmas (incremental linearisation + Groebner; strong on
     equality-heavy UNSAT problems), then nlsat (complete CAD procedure; finds models).  returns (z3 result, solver)"""
     cons = [c for c in cons if c is not True]
@@ -649,36 +656,126 @@ def check_sat(cons, timeout_ms):
     return r, b
 
 
+class _DictModel:
+    """model handed back from a solver child process: variable name -> exact rational (algebraic values approximated to 1e-30)"""
+    def __init__(s, vals): s.vals = vals
+    def eval(s, e, model_completion=True):
+        vs = _vars(e)
+        return z3.simplify(z3.substitute(e, [(z3.Real(k), z3.RealVal(str(s.vals.get(k, Fraction(0))))) for k in vs]))
+    def model(s): return s
+
+
+def check_sat(cons, timeout_ms):
+    """the portfolio of _check_sat_inproc with a HARD deadline: z3's nlsat occasionally overruns its own timeout by minutes
+    (non-interruptible algebraic computations), so the query runs in a forked child that is killed at 1.5 x timeout + 1 s."""
+    cons = [c for c in cons if c is not True]
+    if any(c is False for c in cons):
+        return z3.unsat, None
+    if os.environ.get('VERIF_NOFORK'): return _check_sat_inproc(cons, timeout_ms)
+    rfd, wfd = os.pipe()
+    pid = os.fork()
+    if pid == 0:
+        code = 0
+        try:
+            os.close(rfd)
+            r, sol = _check_sat_inproc(cons, timeout_ms)
+            out = {'r': str(r), 'vals': {}}
+            if r == z3.sat:
+                m = sol.model()
+                for d in m.decls():
+                    if d.arity() != 0: continue
+                    v = m[d]
+                    try:
+                        if z3.is_rational_value(v): out['vals'][d.name()] = (v.numerator_as_long(), v.denominator_as_long())
+                        elif z3.is_algebraic_value(v):
+                            a = v.approx(30); out['vals'][d.name()] = (a.numerator_as_long(), a.denominator_as_long())
+                    except Exception: pass
+            import pickle
+            data = pickle.dumps(out)
+            with os.fdopen(wfd, 'wb') as f: f.write(data)
+        except BaseException:
+            code = 1
+        os._exit(code)
+    os.close(wfd)
+    import select, pickle, signal
+    deadline = time.time() + timeout_ms * 1.5 / 1000.0 + 1.0
+    buf = b''
+    try:
+        while True:
+            left = deadline - time.time()
+            if left <= 0: break
+            rd, _, _ = select.select([rfd], [], [], left)
+            if not rd: break
+            chunk = os.read(rfd, 1 << 16)
+            if not chunk: break
+            buf += chunk
+    finally:
+        os.close(rfd)
+        try: os.kill(pid, signal.SIGKILL)
+        except OSError: pass
+        try: os.waitpid(pid, 0)
+        except OSError: pass
+    if not buf: return z3.unknown, None
+    try: out = pickle.loads(buf)
+    except Exception: return z3.unknown, None
+    r = {'sat': z3.sat, 'unsat': z3.unsat}.get(out['r'], z3.unknown)
+    return r, _DictModel({k: Fraction(n, d) for k, (n, d) in out['vals'].items()})
+
+
 def solve(pc, claim, extra=(), timeout_ms=30000, npre=0):
     """is (pc and extra) => claim valid?  returns ('unsat'|'sat'|'unknown', model or None, seconds).
     nlsat pays for every irrelevant polynomial constraint, so weaker premise sets are tried first (sound: proving the
     claim from a subset of the path condition proves it from all of it): the last 1, the last 3, then everything.
     Only the full premise set can produce a counterexample."""
     t0 = time.time()
+    solve.candidates = []     # models of relaxed queries (premise subsets): candidate inputs, meaningful only if they replay natively
     if claim is True: return 'unsat', None, 0.0
     neg = z3.BoolVal(True) if claim is False else z3.Not(claim)
     if claim is not False and _size(claim, 2500) < 2500:
         # polynomial identities are decided by z3's simplifier once both sides are expanded to sums of monomials;
         # nlsat (CAD) would otherwise be asked to refute "p != 0" for an identically zero p in a dozen variables
         neg2 = z3.simplify(neg, som=True, arith_lhs=True)
+        if os.environ.get('VERIF_TRACE'): sys.stderr.write('[trace solve] som %.1fs\n' % (time.time() - t0))
         if z3.is_false(neg2): return 'unsat', None, time.time() - t0
     pc = list(pc)
     # the first npre entries of pc are the case's preconditions: the non-trivial ones (not single-variable range
     # bounds) are kept in every premise subset, the range bounds only in the full set
-    isb = [len(_vars(c)) <= 1 and not z3.is_eq(c) for c in pc]
+    isb = [len(_vars(c)) <= 1 and z3.is_and(c) for c in pc]      # two-sided numeric range of one variable; one-sided facts (r >= 0, witness > 0) are kept
     ess = [c for c, b in zip(pc[:npre], isb[:npre]) if not b]
     rest = pc[npre:]
     nonbound = [c for c, b in zip(pc, isb) if not b]
     tried = set()
-    for sub, share in ((ess, 0.05), (ess + rest[-1:], 0.08), (ess + rest[-3:], 0.12), (nonbound, 0.25)):
-        key = len(sub)
+    # relevance subset: the non-bound constraints that only mention variables of the negated claim (inputs and the
+    # square-root / quotient witnesses it refers to) -- leaves out every constraint about unrelated witnesses
+    vc = _vars(neg)
+    relv = [c for c, b in zip(pc, isb) if not b and _vars(c) <= vc]
+    cv = [_vars(c) for c in pc]
+    inputs = set()
+    for v in cv[:npre]: inputs |= v
+    def closure(k):
+        base = set(vc)
+        for v in cv[max(npre, len(pc) - k):]: base |= v
+        return [c for c, b, v in zip(pc, isb, cv) if (not b or not (v <= inputs)) and v <= base]
+    relv1 = closure(1); relv3 = closure(3)
+    trace = os.environ.get('VERIF_TRACE')
+    for sub, share in ((ess, 0.05), (ess + rest[-1:], 0.08), (relv, 0.15), (relv1, 0.15), (relv3, 0.15), (ess + rest[-3:], 0.12), (nonbound, 0.25)):
+        key = tuple(sorted(c.get_id() for c in sub))
         if len(sub) >= len(pc) or key in tried: continue
         tried.add(key)
+        t1 = time.time()
+        if trace: sys.stderr.write('[trace solve] trying subset %d (relv=%s) sizes=%s negsize=%d\n' % (len(sub), sub is relv, [_size(c, 100000) for c in sub][:12], _size(neg, 100000)))
         r, sol = check_sat(list(sub) + list(extra) + [neg], max(300, int(timeout_ms * share)))
+        if trace: sys.stderr.write('[trace solve] subset %d/%d -> %s %.1fs\n' % (len(sub), len(pc), r, time.time() - t1))
         if r == z3.unsat: return 'unsat', None, time.time() - t0
+        if r == z3.sat and len(sub) > len(ess):
+            try: solve.candidates.append((len(sub), sol.model()))
+            except Exception: pass
     r, sol = check_sat(list(pc) + list(extra) + [neg], timeout_ms)
     m = sol.model() if r == z3.sat else None
     return str(r), m, time.time() - t0
+
+
+solve.candidates = []
 
 
 def _size(f, cap):
